@@ -22,11 +22,27 @@ def main(argv):
         unit = load_unit(argv[1])
         evals, skipped, failures = bounded_random(unit, int(argv[2]), int(argv[3]))
         print(json.dumps({"evals": evals, "skipped": skipped,
-                          "failures": [{"obligations": f, "values": v} for f, v in failures]}, default=str))
+                          "failures": [{"obligations": f, "values": v, "shard": sh, "history": h if i == 0 else []}
+                                       for i, (f, v, sh, h) in enumerate(failures)]}, default=str))
         return 0
+    direct_only = False
+    if argv and argv[0] == '--direct':
+        direct_only = True
+        argv = argv[1:]
     path = argv[0]
     with open(path) as f:
         rec = json.load(f)
+    if rec.get('history') and not direct_only and rec.get('kind') != 'custom':
+        # a fresh-process attempt must not disturb the state the recorded history builds up: run it in a child
+        import subprocess
+        c = subprocess.run([sys.executable] + (['-O'] if sys.flags.optimize else []) + ['-m', 'pyvc.replay', '--direct', path],
+                           capture_output=True, text=True)
+        if c.returncode == 1:
+            sys.stdout.write(c.stdout)
+            return 1
+        with open(path) as f:
+            rec = json.load(f)
+        return history_replay(rec)
     if rec.get('kind') == 'custom':
         mod, fn = rec['replay_fn'].split(':')
         ok, detail = getattr(importlib.import_module(mod), fn)(rec)
@@ -53,6 +69,29 @@ def main(argv):
             note = "input found by single-byte perturbation of the solver's model (bounded search)"
             with open(path, 'w') as f:
                 json.dump(rec, f, indent=1, default=str)
+    print(json.dumps({"reproduced": bool(hit), "failures": failures, "outcome": outcome,
+                      "optimize": sys.flags.optimize, "note": note}))
+    return 1 if hit else 0
+
+
+def history_replay(rec):
+    """not reproducible from a fresh process: replay the recorded earlier calls of the same process, then the input"""
+    from pyvc.unit import replay_native
+    unit = load_unit(rec['unit'])
+    for h in rec['history']:
+        unit.shard = h.get('shard', 0)
+        try:
+            replay_native(unit, h['values'])
+        except BaseException:
+            pass
+    unit.shard = rec.get('shard', 0)
+    failures, outcome = replay_native(unit, rec['values'])
+    want = rec.get('obligation')
+    hit = [f for f in (failures or []) if want is None or f == want]
+    note = None
+    if hit:
+        note = "reproduces only after the %d recorded earlier calls in the same process: the result depends on what was " \
+               "decoded before (a fresh-process replay of the same input passes)" % len(rec['history'])
     print(json.dumps({"reproduced": bool(hit), "failures": failures, "outcome": outcome,
                       "optimize": sys.flags.optimize, "note": note}))
     return 1 if hit else 0
